@@ -31,6 +31,7 @@
 
 
 #include <climits>
+#include <cstdlib>
 #include <string>
 #include "property_list.h"
 #include "function_pair.h"
@@ -257,6 +258,33 @@ void PropertyList::fromSGML(const SGML &e)
 }
 */
 
+/* Strict conversions for attribute values: the whole string (up to trailing
+   white space) must be a number; atoi/atof silently accept any numeric prefix. */
+static bool onlyWhiteSpaceLeft(const char *end)
+{
+  while (*end == ' ' || *end == '\t' || *end == '\n' || *end == '\r')
+    ++end;
+  return *end == 0;
+}
+
+static int stringToIntStrict(const string &s)
+{
+  char *end;
+  long v = strtol(s.c_str(), &end, 10);
+  if (end == s.c_str() || !onlyWhiteSpaceLeft(end))
+    throw gError("PropertyList::fromXML", "Value \"" + s + "\" is not an integer number! Please correct your input data.");
+  return (int) v;
+}
+
+static double stringToDoubleStrict(const string &s)
+{
+  char *end;
+  double v = strtod(s.c_str(), &end);
+  if (end == s.c_str() || !onlyWhiteSpaceLeft(end))
+    throw gError("PropertyList::fromXML", "Value \"" + s + "\" is not a number! Please correct your input data.");
+  return v;
+}
+
 void PropertyList::fromXML(const xmlNode *xmln)
 {
    string bigString = ObjToString(LONG_MAX);
@@ -274,12 +302,12 @@ void PropertyList::fromXML(const xmlNode *xmln)
    }
    else {
         if (s.size()<bigString.size()) {
-        p.asInt() = atoi(s.c_str());
+        p.asInt() = stringToIntStrict(s);
         }
         else {           //s.size()==bigString.size() || s.size()==smallString.size()
              comparison = s.compare(bigString);
                 if (comparison<=0){
-               p.asInt() = atoi(s.c_str());
+               p.asInt() = stringToIntStrict(s);
                 }
                 else {
                 throw gError("Integer Value \"" + s + "\" out of admissible range! Please correct your input data.");
@@ -288,7 +316,7 @@ void PropertyList::fromXML(const xmlNode *xmln)
          }
           break;
       case DOUBLE:
-          p.asDouble() = atof(s.c_str());
+          p.asDouble() = stringToDoubleStrict(s);
           break;
       case STRING:
           p.asString() = s;
